@@ -16,6 +16,30 @@
 //                                                named placeholder never reaches any sink
 #include "../engine/harness.h"
 
+#include <algorithm>
+#include <array>
+#include <atomic>
+#include <chrono>
+#include <ctime>
+#include <deque>
+#include <functional>
+#include <map>
+#include <memory>
+#include <mutex>
+#include <optional>
+#include <stdexcept>
+#include <string>
+#include <string_view>
+#include <thread>
+#include <unordered_map>
+#include <vector>
+
+// The backend's per-thread buffer of decoded events grows once and then stays large for the life of the process. So that
+// EVERY end-to-end case starts with the small buffer a new thread would get (events are moved when it grows, slots are
+// reused when it does not), the harness replaces the empty buffer at the start of a case; that needs two private members
+// (ManualBackendWorker::_backend_worker, ThreadContext::_transit_event_buffer). The std headers are included above, so
+// only quill's own access labels are affected. Nothing under /repo is changed. (Same device as harness/named.cpp.)
+#define private public
 #include "quill/Backend.h"
 #include "quill/Frontend.h"
 #include "quill/Logger.h"
@@ -24,15 +48,7 @@
 #include "quill/core/MacroMetadata.h"
 #include "quill/core/PatternFormatterOptions.h"
 #include "quill/sinks/Sink.h"
-
-#include <algorithm>
-#include <array>
-#include <ctime>
-#include <deque>
-#include <memory>
-#include <optional>
-#include <stdexcept>
-#include <string_view>
+#undef private
 
 #include <pthread.h>
 #include <sys/syscall.h>
@@ -1034,8 +1050,18 @@ void ensure_backend()
   bo.error_notifier = [](std::string const& m) { if (g_errors.size() < 16) g_errors.push_back(m); };
   bo.log_timestamp_ordering_grace_period = std::chrono::microseconds{0};
   bo.check_backend_singleton_instance = false;
+  bo.transit_event_buffer_initial_capacity = 2; // legal (power of two); see reset_transit_buffers()
   if (!g_printable_check) bo.check_printable_char = {};
   g_worker->init(bo);
+}
+
+// every case starts with the 2-slot buffer of decoded events a new thread would get
+void reset_transit_buffers()
+{
+  quill::detail::BackendWorker* bw = g_worker->_backend_worker;
+  for (quill::detail::ThreadContext* tc : bw->_active_thread_contexts_cache)
+    if (tc->_transit_event_buffer && tc->_transit_event_buffer->empty())
+      tc->_transit_event_buffer = std::make_shared<quill::detail::TransitEventBuffer>(bw->_options.transit_event_buffer_initial_capacity);
 }
 
 // run-time constructed metadata must outlive every statement that refers to it: interned, never relocated
@@ -1124,6 +1150,7 @@ constexpr uint32_t kNNaLits = sizeof kNaLits / sizeof *kNaLits;
 void e2e_case(Choices& c, Report& r)
 {
   ensure_backend();
+  reset_transit_buffers();
   r.label("e2e");
   g_errors.clear();
 
